@@ -144,6 +144,9 @@ def verify(ctx, repo, registry, prefix, qualnames, harness, expect_covers=(), ma
             ctx.fail(full, "%s; counter-model %s" % (a["detail"], _short(a["model"])), payload, found_input=found)
     ctx.extra.setdefault("paths_explored", 0)
     ctx.extra["paths_explored"] += n_paths
+    if hasattr(ctx, "checkpoint"):
+        ctx.stage = "after the contracts of %s" % ", ".join(f.qualname for f in funcs)
+        ctx.checkpoint(True)
 
 
 def _short(m):
